@@ -1241,3 +1241,16 @@ package tchannel
 //@   requires FrameFull(e.Frame)
 //@   ensures c == u8at(e.Frame.Payload, 0)
 //@   property C03 C08 C20
+
+// An error frame is refused without an attempt to queue it only on a CLOSED
+// connection: in every other state (including the closing states, where late
+// calls must still be refused with an error frame) one attempt to queue it is made.
+//@ closure (c *Connection) SendSystemError 2
+//@   nosafety
+//@   requires locked(c) && own(frame) == 1
+//@   modifies own(frame), sendtries(c.sendCh)
+//@   label unsent-frame-stays-with-the-caller
+//@   ensures result != nil ==> own(frame) == 1
+//@   label error-frames-are-attempted-unless-closed
+//@   ensures old(c.state) != connectionClosed ==> sendtries(old(c.sendCh)) == old(sendtries(c.sendCh)) + 1
+//@   property C07 C20
